@@ -150,6 +150,7 @@ type c16Gen struct {
 	kinds   map[string]int // kinds hit by this type
 	oddTags bool
 	seq     int
+	shorts  int // pflag shorthand letters handed out for this type (distinct, like names)
 }
 
 var c16OddTags = []string{`dials:"_"`, `dials:"-x"`, `dialsenv:""`, `dials:""`, `dials:"é"`, `dials:"9lives"`, `dials:"name,omitempty"`, `dials:"a=b"`, `dialsflag:"-bad"`, `dialsflag:"a=b"`,
@@ -178,7 +179,13 @@ func (g *c16Gen) tagFor(i int, usedTags map[string]bool, embedded bool) string {
 		g.seq++
 		parts = append(parts, fmt.Sprintf(`dialspflag:"custom-pflag-%d-%d"`, g.seq, r.Intn(1000)))
 	}
-	if r.Chance(4) && !embedded {
+	short := r.Chance(5) && g.shorts < 20
+	if short {
+		// a one-letter pflag shorthand, distinct within the type; often on a field that also has an alias
+		parts = append(parts, fmt.Sprintf(`dialspflagshort:"%c"`, "abcdefgijklmnopqrstu"[g.shorts]))
+		g.shorts++
+	}
+	if (r.Chance(4) || (short && r.Chance(50))) && !embedded {
 		g.seq++
 		parts = append(parts, fmt.Sprintf(`dialsalias:"old_%d_%d"`, g.seq, r.Intn(1000)))
 	}
